@@ -646,6 +646,7 @@ int xor_hd_decode(xor_code_t *code_desc, char **data, char **parity, int *missin
       break;
     case FAIL_PATTERN_GE_HD:
     default:
+      ret = -1;
       break;
   }
 
